@@ -59,26 +59,39 @@ Definition requeue (rest : list preq) (p : preq) (rooms' : list rid) : list preq
   | _ => rest ++ [{| p_c := p_c p; p_rooms := rooms'; p_gen := p_gen p |}]
   end.
 
-(* the outer loop: for _ in 0..peer_queue.len() { pop_back peer; ...; if lock_aquired { break } } *)
-Fixpoint acquire (n : nat) (q : list preq) (lk : list rid) (dd : list (N * N)) : list preq * option grant :=
+(* a peer that was examined and could not be served: it goes to `skipped` (if it still wants rooms) *)
+Definition skip (sk : list preq) (p : preq) (rooms' : list rid) : list preq :=
+  match rooms' with
+  | [] => sk
+  | _ => sk ++ [{| p_c := p_c p; p_rooms := rooms'; p_gen := p_gen p |}]
+  end.
+
+(* the outer loop (commit 11e9468):
+     let mut skipped = Vec::new();
+     for _ in 0..peer_queue.len() { pop_back peer; ...;
+        if rooms left { if lock_aquired { peer_queue.push_front(peer) } else { skipped.push(peer) } }
+        if lock_aquired { break } }
+     for peer in skipped.into_iter().rev() { peer_queue.push_back(peer) }
+   only the peer that is served moves to the front; the peers that could not be served go back to the
+   back of the queue in their original order (our lists are back first: they come first again) *)
+Fixpoint acquire (n : nat) (q : list preq) (sk : list preq) (lk : list rid) (dd : list (N * N)) : list preq * option grant :=
   match n with
-  | O => (q, None)
+  | O => (sk ++ q, None)
   | S k =>
       match q with
-      | [] => (q, None)
+      | [] => (sk ++ q, None)
       | p :: rest =>
           let '(rooms', g) := try_rooms (length (p_rooms p)) (p_rooms p) lk (alive dd p) in
-          let q' := requeue rest p rooms' in
           match g with
-          | Some r => (q', Some (p_c p, p_gen p, r))
-          | None => acquire k q' lk dd
+          | Some r => (sk ++ requeue rest p rooms', Some (p_c p, p_gen p, r))
+          | None => acquire k rest (skip sk p rooms') lk dd
           end
       end
   end.
 
 (* acquire_lock: at most one grant; locked.insert(room); *avalaible -= 1 *)
 Definition acquire_lock (s : st) : st * list grant :=
-  match acquire (length (queue s)) (queue s) (locked s) (dead s) with
+  match acquire (length (queue s)) (queue s) [] (locked s) (dead s) with
   | (q', Some (c, k, r)) =>
       ({| queue := q'; locked := r :: locked s; avail := pred (avail s); dead := dead s |}, [(c, k, r)])
   | (q', None) =>
